@@ -355,3 +355,45 @@ extern "C" void harness_offsetopenjoined() {
   for (int i = 0; i < 3; ++i) VA(same_double(g_norm_second[i].x, exp[i].x) && same_double(g_norm_second[i].y, exp[i].y));
   verif_reach();
 }
+
+#ifndef JGEOM
+#define JGEOM 0
+#endif
+// ---- C06/C07 join geometry: bevel and miter points lie where the property says, checked in exact integer arithmetic ---------------
+// Unit normals n = (a,b)/5 from the eight exact directions, delta from a table of multiples of 5. For a join at vertex v between the
+// edge with normal nk and the edge with normal nj:
+//   bevel join: the two points are v + delta*nk and v + delta*nj exactly (integers);   bevel cap: v -/+ |delta|*n
+//   miter join: the point p lies on both offset lines: (p - v).nk = delta = (p - v).nj up to the rounding of p to integers
+static const int64_t NA[8] = {5, 0, -5, 0, 3, -3, 4, -4}, NB[8] = {0, 5, 0, -5, 4, 4, -3, -3};
+extern "C" void harness_join_geometry() {
+  static const double NX[8] = {1.0, 0.0, -1.0, 0.0, 0.6, -0.6, 0.8, -0.8}, NY[8] = {0.0, 1.0, 0.0, -1.0, 0.8, 0.8, -0.6, -0.6};
+  static const int64_t DM[6] = {1, -1, 2, 25, -200, 100000};          // delta = 5 * DM
+  ClipperOffset& co = *new ClipperOffset(2.0, 0.0);
+  Path64 path; path.reserve(4); path.push_back(Point64((int64_t)-40, (int64_t)7)); path.push_back(Point64((int64_t)1000, (int64_t)-2000)); path.push_back(Point64((int64_t)3, (int64_t)3));
+  int ik = nd_int(0, 7), ij = nd_int(0, 7), id = nd_int(0, 5);
+  co.norms.reserve(4); co.norms.push_back(PointD(NX[ik], NY[ik])); co.norms.push_back(PointD(NX[ij], NY[ij])); co.norms.push_back(PointD(NX[ij], NY[ij]));
+  co.path_out.reserve(8);
+  const int64_t dm = DM[id]; co.group_delta_ = (double)(5 * dm);
+  const Point64 v = path[1]; const size_t j = 1, k = 0;
+#if JGEOM == 0      // bevel join
+  co.DoBevel(path, j, k);
+  VA(co.path_out.size() == 2);
+  VA(co.path_out[0].x == v.x + dm * NA[ik] && co.path_out[0].y == v.y + dm * NB[ik]);
+  VA(co.path_out[1].x == v.x + dm * NA[ij] && co.path_out[1].y == v.y + dm * NB[ij]);
+#elif JGEOM == 1    // bevel (butt) cap at an end vertex: j == k
+  co.DoBevel(path, j, j);
+  const int64_t am = dm < 0 ? -dm : dm;
+  VA(co.path_out.size() == 2);
+  VA(co.path_out[0].x == v.x - am * NA[ij] && co.path_out[0].y == v.y - am * NB[ij]);
+  VA(co.path_out[1].x == v.x + am * NA[ij] && co.path_out[1].y == v.y + am * NB[ij]);
+#else               // miter join (only called for cos_a > -0.999...: not for reversals)
+  const int64_t dot25 = NA[ik] * NA[ij] + NB[ik] * NB[ij];            // 25 * cos
+  ASSUME(dot25 > -25);
+  co.DoMiter(path, j, k, co.norms[j].x * co.norms[k].x + co.norms[j].y * co.norms[k].y);
+  VA(co.path_out.size() == 1);
+  const int64_t px = co.path_out[0].x - v.x, py = co.path_out[0].y - v.y;
+  const int64_t ek = px * NA[ik] + py * NB[ik] - 25 * dm, ej = px * NA[ij] + py * NB[ij] - 25 * dm;   // 5 * ((p-v).n - delta)
+  VA(ek >= -4 && ek <= 4 && ej >= -4 && ej <= 4);
+#endif
+  verif_reach();
+}
